@@ -136,6 +136,8 @@ def origin_index(name):
     m = re.match(r"c14_step(\d)", name or "")
     if m:
         return int(m.group(1))
+    if name == "c14_fn_step":
+        return 5
     return {"write_json": 9, "write_db": 9, "write_seqs": 9}.get(name, -1)
 
 
@@ -165,3 +167,60 @@ class c19_check:
         if min(len(str(s)) for s in seqs.seqs) < self.min_len:
             raise ValueError("sequence too short")
         return seqs
+
+
+# ---------------------------------------------------------------------------
+# a FUNCTION-style app (define_app on a def) with a mutable positional and a mutable keyword constructor
+# argument, both mutated by the function: define_app must hand every call its own copy
+# ---------------------------------------------------------------------------
+@define_app
+def c14_fn_step(rec: Union[RecA, RecB], seen, limit=1, log=None) -> Union[RecA, RecB, SerialisableType]:
+    seen.append(rec.val)
+    log = {} if log is None else log
+    log["n"] = log.get("n", 0) + 1
+    if len(seen) > limit or log["n"] > limit:
+        # state leaked from an earlier record (or an earlier call)
+        raise RuntimeError(f"boom{9000 + len(seen) * 10 + log['n']}")
+    return RecA(rec.val, source=rec.source)
+
+
+def make_fn_step():
+    return c14_fn_step([], limit=1, log={})
+
+
+# ---------------------------------------------------------------------------
+# custom identifiers: same file names in different directories
+# ---------------------------------------------------------------------------
+def dir_qualified_id(src):
+    """'…/batch1/geneB.txt' -> 'batch1-geneB' (not derivable from the basename alone)"""
+    from pathlib import Path
+
+    s = getattr(src, "source", src)
+    s = getattr(s, "source", s)
+    p = Path(str(s))
+    return f"{p.parent.name}-{p.stem}"
+
+
+@define_app(app_type=LOADER)
+class c14_load_named:
+    """what to do is keyed by 'dir/stem'; kinds: rec / seqs / table / raise"""
+
+    def __init__(self, plan=None):
+        self.plan = plan or {}
+
+    def main(self, path: IdentifierType) -> SerialisableType:
+        from pathlib import Path
+
+        import cogent3
+
+        p = Path(str(path))
+        kind = self.plan.get(f"{p.parent.name}/{p.stem}", "rec")
+        if kind == "raise":
+            raise RuntimeError(f"boom {p.parent.name}/{p.stem}")
+        if kind == "seqs":
+            return cogent3.make_unaligned_seqs({"a": "ACGT" + "A" * len(p.parent.name), "b": "GGT"}, moltype="dna", info={"source": str(path)})
+        if kind == "table":
+            t = cogent3.make_table(header=["x", "y"], data=[[1, len(p.stem)], [2, 3]])
+            t.source = str(path)
+            return t
+        return RecA(len(p.stem), source=str(path))
